@@ -711,7 +711,14 @@ class RtpPacket:
                 raise ValueError("RTP packet has truncated extension value")
             extension_value = data[pos : pos + extension_length]
             pos += extension_length
-            packet.extensions = extensions_map.get(extension_profile, extension_value)
+            try:
+                packet.extensions = extensions_map.get(
+                    extension_profile, extension_value
+                )
+            except struct.error as exc:
+                raise ValueError(
+                    "RTP packet has a header extension with an invalid length"
+                ) from exc
 
         if padding:
             padding_len = data[-1]
